@@ -31,19 +31,51 @@ mod verif_cex {
         );
     }
 
-    struct MemFs(HashMap<String, String>);
+    struct MemFs(HashMap<PathBuf, String>);
 
     impl blocks::FileSystem for MemFs {
         fn read_to_string(&self, path: &Path) -> anyhow::Result<String> {
             self.0
-                .get(&path.display().to_string())
+                .get(path)
                 .cloned()
                 .ok_or_else(|| anyhow::anyhow!("no such file"))
         }
 
         fn walk(&self) -> impl Iterator<Item = anyhow::Result<PathBuf>> {
-            self.0.keys().map(|p| Ok(PathBuf::from(p)))
+            self.0.keys().map(|p| Ok(p.clone()))
         }
+    }
+
+    /// A file name of a spec: `%XX` stands for the byte XX, so that names that are NOT valid Unicode can be
+    /// written in a (Unicode) spec string: `caf%E9.py` is the Latin-1 spelling of `café.py`.
+    fn path_of(name: &str) -> PathBuf {
+        let b = name.as_bytes();
+        let mut bytes: Vec<u8> = Vec::new();
+        let mut i = 0;
+        while i < b.len() {
+            if b[i] == b'%' && i + 2 < b.len() {
+                bytes.push(u8::from_str_radix(&name[i + 1..i + 3], 16).unwrap());
+                i += 3;
+            } else {
+                bytes.push(b[i]);
+                i += 1;
+            }
+        }
+        #[cfg(unix)]
+        {
+            use std::os::unix::ffi::OsStringExt;
+            PathBuf::from(std::ffi::OsString::from_vec(bytes))
+        }
+        #[cfg(not(unix))]
+        {
+            PathBuf::from(String::from_utf8_lossy(&bytes).to_string())
+        }
+    }
+
+    /// The member name a file's diagnostics are printed under: a JSON member name is a string, so the path is
+    /// shown as text; bytes that are not valid UTF-8 show as U+FFFD (C11: "mapping each ... file path to its list").
+    fn printed_name(name: &str) -> String {
+        path_of(name).to_string_lossy().to_string()
     }
 
     struct AllowAll;
@@ -79,7 +111,7 @@ mod verif_cex {
 
     fn child(spec: &str) {
         let files = files_of(spec);
-        let fs = MemFs(files.iter().map(|(n, t, _)| (n.clone(), t.clone())).collect());
+        let fs = MemFs(files.iter().map(|(n, t, _)| (path_of(n), t.clone())).collect());
         let blocks = blocks::parse_blocks(
             HashMap::new(),
             true,
@@ -152,6 +184,22 @@ mod verif_cex {
         for s in ["default", "default,warning", "warning,default", "WARNING", "Info,HINT", "Error,hint", "hint,ERROR"] {
             specs.push(format!("a.py:{s}"));
         }
+        // file names that are NOT valid Unicode (Unix; `%XX` = one byte): the name of a file never decides the exit
+        // status (warning-only => 0), the key is the name with U+FFFD for the bad bytes, nothing is lost
+        #[cfg(unix)]
+        {
+            for s in ["warning", "hint,info", "info,warning,hint", "error", "warning,error"] {
+                specs.push(format!("caf%E9.py:{s}"));
+                specs.push(format!("a.py:{s};d%FF/b%FE.py:warning"));
+                specs.push(format!("a.py:warning;d%FF/b%FE.py:{s}"));
+            }
+            // two different names with the SAME printable text: both lists stand under the one key, each
+            // diagnostic exactly once
+            for (a, b) in [("warning", "info"), ("warning", "error"), ("hint,hint", "warning"), ("info", "info")] {
+                specs.push(format!("caf%E9.py:{a};caf%E8.py:{b}"));
+                specs.push(format!("caf%E9.py:{a};caf%E8.py:{b};a.py:hint"));
+            }
+        }
         let mut cases = 0u64;
         for spec in &specs {
             let out = std::process::Command::new(&exe)
@@ -161,7 +209,7 @@ mod verif_cex {
                 .unwrap();
             cases += 1;
             let files = files_of(spec);
-            let input = json!({"files": files.iter().map(|(n, t, _)| json!({"file_name": n, "file_text": t})).collect::<Vec<_>>()});
+            let input = json!({"files": files.iter().map(|(n, t, _)| json!({"file_name": n, "file_name_note": "%XX = the byte XX (names that are not valid Unicode)", "file_text": t})).collect::<Vec<_>>()});
             let stderr = String::from_utf8_lossy(&out.stderr).to_string();
             let any_error = files.iter().any(|(_, _, sevs)| sevs.iter().any(|s| severity_number(s) == 1));
             // ---- exit status (C11): 1 exactly when at least one diagnostic has severity error ----
@@ -186,12 +234,17 @@ mod verif_cex {
                 Ok(v) => v,
                 Err(e) => cex_fail("V8", "process_violations must print one JSON object to stderr", input, json!("a JSON object"), json!({"stderr": stderr, "parse_error": e.to_string()})),
             };
-            let mut expected_report: Vec<(String, Vec<u64>)> = files
-                .iter()
-                .map(|(n, _, sevs)| {
-                    let mut v: Vec<u64> = sevs.iter().map(|s| severity_number(s)).collect();
+            // per printed name: the diagnostics of EVERY file printed under that name (two names that are not valid
+            // Unicode may print alike), each exactly once
+            let mut by_name: std::collections::BTreeMap<String, Vec<u64>> = std::collections::BTreeMap::new();
+            for (n, _, sevs) in &files {
+                by_name.entry(printed_name(n)).or_default().extend(sevs.iter().map(|s| severity_number(s)));
+            }
+            let mut expected_report: Vec<(String, Vec<u64>)> = by_name
+                .into_iter()
+                .map(|(n, mut v)| {
                     v.sort();
-                    (n.clone(), v)
+                    (n, v)
                 })
                 .collect();
             expected_report.sort();
@@ -224,7 +277,7 @@ mod verif_cex {
         cex_none(
             "V8",
             cases,
-            "child processes running process_violations on real line-count violations: every sequence of 1..=3 severities over {error,warning,info,hint} in one file, 32 two-file mixes, default severity and upper/mixed-case spellings",
+            "child processes running process_violations on real line-count violations: every sequence of 1..=3 severities over {error,warning,info,hint} in one file, 32 two-file mixes, default severity and upper/mixed-case spellings; (Unix) file and directory names that are not valid Unicode x 5 severity lists x 3 layouts, and 8 pairs of names with the same lossy text",
         );
     }
 }
